@@ -24,6 +24,7 @@ class CancelCtx:
         self.world = world
         self.hook_calls = 0
         self.hook_pending = []
+        self.closing_at_hook = []
         self.initial_computations = []
         self.initial_queues = []
 
@@ -65,6 +66,11 @@ class CancelCtx:
         sim = self.world.sim
         self.hook_pending = [e.label for e in sim.externals
                              if e.kind != "gate" and e.is_pending()][:5]
+        # a source still being closed when the publisher declares the work finished - unless a
+        # shielded clean-up is in flight, which the real executor's hook would wait for
+        if not any(not f.done() for f in self.world.background):
+            self.closing_at_hook = [e.label for e in sim.externals
+                                    if e.kind == "aclose" and e.is_pending()][:4]
 
 
 def _provenance(spec, world, leaked):
@@ -238,6 +244,12 @@ def run_unit(seed=None, unit=None, tier="quick", stats=None, prop="C06"):
             pend = [e.label for e in sim.externals if e.kind != "gate" and e.is_pending()]
             if pend and (out["closed"] and close_after > 0 or out["ended"]) and not left:
                 vs.append(Violation(prop, "work_not_cancelled", fp, {"externals": pend[:5]}))
+            if ctx.closing_at_hook:
+                own = {f"sclose:{ss.sid}" for ss in spec.all_streams if ss.self_failed}
+                vs.append(Violation(prop, "hook_early", dict(
+                    fp, unsettled="source_being_closed", tracked_background_pending=False,
+                    closing_after_own_failure=all(x in own for x in ctx.closing_at_hook)),
+                    {"closing": ctx.closing_at_hook}))
             expect_hook = 1 if (out["ended"] or (out["closed"] and close_after > 0)) else None
             if expect_hook is not None and ctx.hook_calls != 1:
                 vs.append(Violation(prop, "hook_count", dict(fp, count=min(ctx.hook_calls, 2)), {}))
